@@ -1,4 +1,5 @@
 (* C13 - Results depend only on the arguments: no history dependence, no mutation. *)
+From B39 Require Import Proofs.Calls.
 From B39 Require Import Lib.Base Model.GenTypes Model.Model Model.State Proofs.History Proofs.Inventory.
 
 (* ops ranges over every finite sequence of the six entry points with any arguments (any Language
@@ -28,6 +29,11 @@ Qed.
    maps are ever written, only inside their once.Do closure (no cache, no shared buffer) *)
 Theorem C13_source_facts : mapping_table_wf = true /\ inventory_ok = true.
 Proof. split; [exact mapping_table_wf_holds|exact inventory_ok_holds]. Qed.
+
+(* the functions this property is about, and every package function they reach, call only what the model
+   accounts for (closed world of callees, computed on coq/Gen/Calls.v, regenerated from the source every run) *)
+Theorem C13_callees : all_calls_ok = true.
+Proof. exact all_calls_ok_holds. Qed.
 
 Print Assumptions C13_history_free.
 Print Assumptions C13_any_reachable_state.
